@@ -40,6 +40,15 @@ def reformat_variants(src):
 def edits(q):
     """single-edit neighbours, applied IN PLACE and undone: yields (description, undo)"""
     nodes = list(ast.walk(q))
+    parents = {}
+    for p in nodes:
+        for f, v in ast.iter_fields(p):
+            if isinstance(v, list):
+                for k, x in enumerate(v):
+                    if isinstance(x, ast.AST):
+                        parents[id(x)] = (p, f, k)
+            elif isinstance(v, ast.AST):
+                parents[id(v)] = (p, f, None)
     for i, n in enumerate(nodes):
         if isinstance(n, ast.Name):
             old = n.id
@@ -67,6 +76,8 @@ def edits(q):
                 alts = [not old, int(old), str(old), None]
             elif isinstance(old, int):
                 alts = [old + 1, float(old), str(old), bool(old) if old in (0, 1) else -old, None]
+                if old > 0 and -old not in alts:
+                    alts.append(-old)  # the constant -1 (a captured value) ...
             elif isinstance(old, str):
                 alts = [old + "x", old + "é", old + "è", old + "π", old.encode(), old.upper() if old.upper() != old else old + "_"]
             elif isinstance(old, float):
@@ -75,6 +86,19 @@ def edits(q):
                 n.value = new
                 yield f"const#{i}:{old!r}->{new!r}"
             n.value = old
+            if isinstance(old, (int, float)) and not isinstance(old, bool) and old > 0 and id(n) in parents:
+                # ... and the written form -1 (a negation applied to the constant 1) are different structures
+                par, f, k = parents[id(n)]
+                neg = ast.UnaryOp(ast.USub(), n)
+                if k is None:
+                    setattr(par, f, neg)
+                else:
+                    getattr(par, f)[k] = neg
+                yield f"const-negated#{i}:{old!r}"
+                if k is None:
+                    setattr(par, f, n)
+                else:
+                    getattr(par, f)[k] = n
         elif isinstance(n, ast.Call):
             if len(n.args) >= 2 and skey(n.args[0]) != skey(n.args[1]):
                 n.args[0], n.args[1] = n.args[1], n.args[0]
@@ -141,7 +165,8 @@ class C20(Check):
             "(c) over all of Q, grouping by hash must coincide with grouping by an independent structural "
             "serialisation; (d) the same queries hashed in 3 fresh processes with different PYTHONHASHSEED give "
             "the same values; (e) fluent-API builds from string / ast / callable in differently formatted "
-            "generated modules on different dataset instances with QMetaData share the hash. "
+            "generated modules on different dataset instances with QMetaData share the hash; (f) the same fluent query "
+            "built four times in one process (captured helpers inlined, inner names renamed) hashes alike every time. "
             "Non-trivial = distinct (query, edit) pairs")
     assumptions = [
         "structure = node types, fields and leaf values with their types (ast attributes lineno etc. and "
@@ -161,6 +186,7 @@ class C20(Check):
                   runner="run_fluent"),
             Space("captured-constants", {"values": "equal-but-differently-typed constants, rebinding between uses of one function object"},
                   list(range(len(CAPTURE_MENU))), runner="run_capture"),
+            Space("rebuilds", {"menu": len(REBUILD_MENU), "builds": 4}, (lambda: list(range(len(REBUILD_MENU)))), runner="run_rebuild"),
             Space("processes", {"processes": 3, "PYTHONHASHSEED": "1, 2, random"}, [("proc", 0)], runner="run_proc"),
         ]
 
@@ -330,7 +356,41 @@ class C20(Check):
         return res
 
     def pair_menu(self, tier):
-        return [("capture", "run_capture", k) for k in range(len(CAPTURE_MENU))]
+        return [("capture", "run_capture", k) for k in range(len(CAPTURE_MENU))] + \
+               [("rebuild", "run_rebuild", k) for k in range(len(REBUILD_MENU))]
+
+    # ------------------------------------------------------------------ the same query built again and again
+    def run_rebuild(self, k):
+        """one process builds the same fluent query several times (helpers inlined, inner names renamed for capture
+        avoidance, fresh arg_N names in between): every build must hash alike"""
+        from func_adl import EventDataset
+        from func_adl.ast.function_simplifier import simplify_chained_calls
+
+        class DS(EventDataset):
+            async def execute_result_async(self, a, title=None):
+                return a
+
+        res = {"n": 0, "nt": [f"rebuild|{k}"], "oc": ["rebuild"], "tags": {}, "viol": []}
+        _MODN[0] += 1
+        fn = f"<c20reb{_MODN[0]}>"
+        text = REBUILD_MENU[k]
+        linecache.cache[fn] = (len(text), None, text.splitlines(True), fn)
+        g = {}
+        try:
+            exec(compile(text, fn, "exec"), g)
+            hs = []
+            for i in range(4):
+                q = g["build"](DS()).query_ast
+                hs.append((_hash(q), ast.unparse(q)))
+                res["n"] += 1
+                if i == 1:
+                    simplify_chained_calls().visit(copy.deepcopy(q))  # unrelated work in between
+        finally:
+            linecache.cache.pop(fn, None)
+        if len({h for h, _ in hs}) != 1:
+            res["viol"].append({"kind": "rebuilding-the-same-query-changes-its-hash", "canon": f"rebuild|{k}",
+                                "msg": " ; ".join(sorted({u for _, u in hs}))[:300]})
+        return res
 
     # ------------------------------------------------------------------ separate processes
     def run_proc(self, _):
@@ -356,6 +416,19 @@ class C20(Check):
         return res
 
 
+REBUILD_MENU = [
+    # a helper whose inner lambda re-uses the name of the caller's variable (renamed during inlining)
+    "def h(x): return x.jets.Select(lambda e: e.pt + x.a)\ndef build(ds):\n    return ds.Select(\n        lambda e: h(e)\n    )\n",
+    # a called lambda with the same collision
+    "def build(ds):\n    return ds.Select(\n        lambda e: (lambda x: x.jets.Select(lambda e: e.pt + x.a))(e)\n    )\n",
+    # a comprehension target spelled like the argument
+    "def h(x): return [j.pt + x.a for j in x.jets]\ndef build(ds):\n    return ds.Select(\n        lambda j: h(j)\n    )\n",
+    # two helpers, two stages
+    "def h(x): return x.jets.Select(lambda e: e.pt)\ndef g(y): return y.Where(lambda e: e > 1).Count()\n"
+    "def build(ds):\n    return ds.Select(\n        lambda e: h(e)\n    ).Select(\n        lambda e: g(e)\n    )\n",
+    # nothing to rename (control)
+    "def build(ds):\n    return ds.Select(\n        lambda e: e.a + 1\n    )\n",
+]
 CAPTURE_MENU = [(30,), (30.0,), (True,), (1,), (1.0,), ("a",), (10, 20), (2, 2.0), (0, False, 0.0)]
 
 
